@@ -882,6 +882,24 @@ theorem writer_pipeline_in_sync (st : MState) (cmds : List Cmd) (marker : Cmd) (
   rw [this]
   simpa using h4
 
+/-- failing Flushes never lose, reorder or corrupt buffered bytes, wherever they occur: after the last
+    SUCCESSFUL Flush (before it anything may have happened, failures included) the buffer below `w` is exactly
+    what has been written since, and the flag says whether an error was among it -/
+theorem pending_is_written_since_last_flush (pre post : List Call) (s : Writer)
+    (hp : ∀ c ∈ post, c ≠ .flush none)
+    (e : RespWriter.run RespWriter.new (pre ++ [.flush none] ++ post) = .ok s) :
+    s.buf.toList.take s.w = post.flatMap written ∧ s.err = post.any isError := by
+  obtain ⟨h1, _, _⟩ := Proofs.RespWriter.run_ok_abs Proofs.RespWriter.new_inv e
+  rw [Proofs.RespWriter.abs_new, Proofs.RespWriter.AW.run_append, Proofs.RespWriter.AW.run_append] at h1
+  cases ha : AW.run {} pre with
+  | none => rw [ha] at h1; cases h1
+  | some a1 =>
+    rw [ha] at h1
+    simp only [Option.bind_some, AW.run, AW.step] at h1
+    obtain ⟨h2, h3⟩ := Proofs.RespWriter.AW.run_no_flush post _ (abs s) h1 hp
+    simp only [abs] at h2 h3
+    exact ⟨by simpa using h2, by simpa using h3⟩
+
 /-! ### the writer as the connection loop uses it (redis/server.go handleConn, nodis.go Serve) -/
 
 /-- what `conn.HasError()` feeds into MULTI's error bit: writing the tokens `ts` of a reply raises the flag
@@ -1011,6 +1029,12 @@ example : ∃ s, RespWriter.run RespWriter.new ([Call.array 1, .flush none, .has
   obtain ⟨s, e, h, w⟩ := writer_tokens_bytes [Tok.arr 1, Tok.bulk [13, 10]] [Call.array 1, .flush none, .hasError, .bulk [13, 10], .bytes]
     (by decide) (by intro c hc k; simp at hc; rcases hc with rfl | rfl | rfl | rfl | rfl <;> simp)
   exact ⟨s, e, by rw [h]; decide +kernel, w⟩
+/-- `pending_is_written_since_last_flush` on a run with failing Flushes before and after the successful one -/
+example : ∃ s, RespWriter.run RespWriter.new ([Call.ok, .flush (some 3)] ++ [.flush none] ++ [.error [120], .flush (some 0), .int64 1]) = .ok s ∧
+    s.buf.toList.take s.w = Bytes.ofString "-x\r\n:1\r\n" ∧ s.err = true := by
+  obtain ⟨s, e⟩ := writer_total ([Call.ok, .flush (some 3)] ++ [.flush none] ++ [.error [120], .flush (some 0), .int64 1]) (by decide)
+  obtain ⟨h1, h2⟩ := pending_is_written_since_last_flush [Call.ok, .flush (some 3)] [.error [120], .flush (some 0), .int64 1] s (by decide) e
+  exact ⟨s, e, by rw [h1]; decide +kernel, by rw [h2]; decide⟩
 /-- the abstract writer on a concrete run with an error reply: flag raised by WriteError, lowered by Flush -/
 example : AW.run {} [.error (Bytes.ofString "ERR x"), .int64 (-5), .hasError] =
     some { delivered := [], pending := Bytes.ofString "-ERR x\r\n:-5\r\n", err := true } := by decide +kernel
